@@ -296,6 +296,11 @@ class SimRLock:
             raise SimAbort()
         me = s.cur
         s.yield_point(('lock', 'acquire'))
+        if (not blocking or (timeout is not None and timeout >= 0)) and self.owner is not None and self.owner is not me:
+            # acquire(False) / acquire(timeout=t): the lock is busy, the caller is told so (a timed wait that
+            # would have succeeded is the same as being scheduled later)
+            s.contended += 1
+            return False
         while self.owner is not None and self.owner is not me:
             s.contended += 1
             me.blocked_on = self
@@ -356,6 +361,9 @@ class SimLock(SimRLock):
             raise SimAbort()
         me = s.cur
         s.yield_point(('lock', 'acquire'))
+        if (not blocking or (timeout is not None and timeout >= 0)) and self.owner is not None:
+            s.contended += 1
+            return False
         while self.owner is not None:
             s.contended += 1
             me.blocked_on = self
